@@ -259,6 +259,7 @@ func discharge(groups []*Group, workDir string, timeout int, confirm bool, worke
 			asserts = append(asserts, relevantAxioms(defAxiomsGlobal, f)...)
 		}
 		asserts = append(asserts, f)
+		asserts = append(asserts, boundFactsFor(asserts...)...)
 		names, terms := modelTerms(g)
 		q := p.Query(asserts, terms)
 		file := filepath.Join(workDir, sanitize(g.Name)+".smt2")
@@ -343,6 +344,7 @@ func discharge(groups []*Group, workDir string, timeout int, confirm bool, worke
 			asserts := append([]*Term{}, groups[i].Axioms...)
 			asserts = append(asserts, relevantAxioms(defAxiomsGlobal, f)...)
 			asserts = append(asserts, f)
+			asserts = append(asserts, boundFactsFor(asserts...)...)
 			names, terms := modelTerms(groups[i])
 			q := p.Query(asserts, terms)
 			subNames[i] = names
